@@ -43,11 +43,7 @@ impl CaseCtx {
 
     pub fn run(&mut self, schema_text: &str, is_json: bool, query_text: &str, opts: &Opts) -> CaseResult {
         let (schema_path, real) = self.run_real(schema_text, is_json, query_text, opts);
-        let model = match schema_src_sexp(schema_text, is_json) {
-            Ok(src) => run_model(&mut self.model, &src, schema_text, query_text, opts),
-            // the text does not parse: the implementation unwraps the parser error
-            Err(e) => crate::sexp::tagged("panic", vec![crate::sexp::st(&e)]),
-        };
+        let model = predict(&mut self.model, schema_text, is_json, query_text, opts);
         let modules = match &real {
             RealOutcome::Ok(t) => extract::extract(t).ok(),
             _ => None,
